@@ -35,7 +35,11 @@ type Exec struct {
 	KeepTrace bool
 	Tapes     [][]scn.Decision // recorded per phase
 	PhaseStep []int64          // steps per phase (from the dry run, if any)
-	phaseNo   int
+	// DryLogs are the per-phase client logs of the sequential dry run; the
+	// scheduled run compares its results against them (CompareWithDry).
+	DryLogs [][]ClientLog
+	AllLogs [][]ClientLog // logs of this execution, per phase
+	phaseNo int
 }
 
 func NewExec(s *scn.Scn) *Exec {
@@ -71,8 +75,10 @@ func (x *Exec) Tracef(format string, args ...any) {
 
 // OpResult is what a client operation returns to the executor.
 type OpResult struct {
-	Digest uint64
-	Text   string // optional, for traces
+	Digest  uint64
+	Text    string // optional, for traces
+	Relaxed bool   // digest is not comparable with the sequential baseline
+	Bad     string // set by the operation itself when an inline invariant failed ("class: detail")
 }
 
 // ClientLog is the private log of one client in a phase.
@@ -177,6 +183,18 @@ func (x *Exec) RunPhase(pi int, fn func(client, opi int, op *scn.Op) OpResult) [
 			x.Out.Trace = append(x.Out.Trace, fmt.Sprintf("phase %d step %d: client %d -> %d at %s (op %d)", pi, t.Step, t.From, t.To, t.Kind, t.Op))
 		}
 	}
+	x.AllLogs = append(x.AllLogs, logs)
+	for ci := range logs {
+		for oi, r := range logs[ci].Results {
+			if r.Bad != "" {
+				cls, det := r.Bad, r.Bad
+				if i := strings.Index(r.Bad, ": "); i > 0 {
+					cls, det = r.Bad[:i], r.Bad[i+2:]
+				}
+				x.Fail(cls, "phase %d client %d op %d (%s): %s", pi, ci, oi, ph.Clients[ci][oi].Op, det)
+			}
+		}
+	}
 	for ci := range logs {
 		if logs[ci].Panic != "" {
 			x.Fail("panic:"+panicClass(logs[ci].Panic), "phase %d client %d op %d (%s) panicked: %s", pi, ci, logs[ci].PanicOp, ph.Clients[ci][logs[ci].PanicOp].Op, logs[ci].Panic)
@@ -239,6 +257,30 @@ func panicClass(p string) string {
 		s = s[:80]
 	}
 	return s
+}
+
+// CompareWithDry checks that every non-relaxed operation result of phase pi
+// equals the result the same operation produced in the sequential dry run.
+func (x *Exec) CompareWithDry(pi int, logs []ClientLog) {
+	if x.Dry || pi >= len(x.DryLogs) {
+		return
+	}
+	dry := x.DryLogs[pi]
+	ph := &x.Scn.Phases[pi]
+	for ci := range logs {
+		if ci >= len(dry) {
+			break
+		}
+		for oi, r := range logs[ci].Results {
+			if oi >= len(dry[ci].Results) || r.Relaxed {
+				continue
+			}
+			if d := dry[ci].Results[oi]; d.Digest != r.Digest {
+				x.Fail("I2:"+ph.Clients[ci][oi].Op, "phase %d client %d op %d (%s): result under this schedule (digest %016x %s) differs from the sequential result (digest %016x %s)", pi, ci, oi, ph.Clients[ci][oi].Op, r.Digest, r.Text, d.Digest, d.Text)
+				return
+			}
+		}
+	}
 }
 
 // FinalizeTapes stores the recorded schedule into the scenario so that it
